@@ -32,6 +32,8 @@ FLOORS = {'quick': {'evaluations': 20000, 'distinct_nontrivial': 2000,
                     'monitors': {'M2._get_chunk_bounds.checked': 1000, 'M1.checked': 1000}},
           'thorough': {'evaluations': 45000, 'distinct_nontrivial': 5000,
                        'monitors': {'M2._get_chunk_bounds.checked': 1000, 'M1.checked': 1000}}}
+ASSUMPTIONS = ['two simultaneous passes over one reader are advanced like zip() does (the round in which the first pass ends is not started for the second): the passes of a compressed reader share one decoder pool and the unchanged code cannot shut it down twice',
+               'a reader may refuse a recording without samples; if it accepts one, its bounds are [0] and it yields no interval']
 NSHARDS = 16
 
 
@@ -88,6 +90,10 @@ def run_shard(desc, ctx):
             if idx % ns != sh:
                 continue
             run_case({'kind': 'cbin_reader', 'n': n, 'chunk_len': cl, 'threads': [1, 2, 3, 4]}, ctx)
+    # a recording without any sample (in-memory array): bounds [0], no interval
+    idx += 1
+    if idx % ns == sh:
+        run_case({'kind': 'empty_reader'}, ctx)
     # more decoder threads than CPUs, more chunks than threads
     for n, cl in ((40, 1), (75, 2)):
         idx += 1
@@ -318,6 +324,22 @@ def _check_iter(rd, A, case, ctx, cache):
         ctx.violation('iter_chunks_not_tiling', case, 'pass on a derived reader after earlier passes: %s: %s' % (
             _tiles(rc.value, n), rc.value), {'repeat': True})
         return
+    # two passes over the same reader advanced in lockstep (reentrancy): each must tile the recording on its own
+    def lockstep():
+        # zip() semantics: the round in which the first pass ends is not started for the second one (the compressed
+        # reader's passes share one decoder pool, whose shutdown belongs to whichever pass ends)
+        pairs = list(zip(rd.iter_chunks(cache=cache), rd.iter_chunks(cache=cache)))
+        return ([(int(x[0][0]), int(x[0][1])) for x in pairs], [(int(x[1][0]), int(x[1][1])) for x in pairs])
+    rl = call(lockstep)
+    if rl.ok:
+        for which, p in enumerate(rl.value):
+            if _tiles(p, n):
+                ctx.violation('iter_chunks_not_tiling', case, 'pass %d of two passes advanced in lockstep: %s: %s' % (
+                    which + 1, _tiles(p, n), p[:12]), {'repeat': True, 'lockstep': True})
+                return
+    elif not isinstance(rl.exc, (TypeError, ValueError)):
+        ctx.violation('raised', case, 'two passes in lockstep raised %r' % rl.exc, {'lockstep': True}, tb=rl.tb)
+        return
     r = call(lambda: [(int(a), int(b)) for a, b in rd.iter_chunks(cache=cache)])
     if not r.ok:
         ctx.violation('raised', case, 'iter_chunks raised %r' % r.exc, tb=r.tb)
@@ -336,6 +358,23 @@ def _check_iter(rd, A, case, ctx, cache):
         dd = same(rr.value, A[a:b])
         if dd:
             ctx.violation('chunk_data_mismatch', case, 'reader[%d:%d]: %s' % (a, b, dd))
+
+
+def _case_empty_reader(case, ctx):
+    from phylib.io.traces import get_ephys_reader
+    ctx.count(1, cell=('empty_reader',))
+    for nc in (1, 3):
+        r = call(get_ephys_reader, np.zeros((0, nc), dtype=np.int16), sample_rate=100.)
+        if not r.ok:
+            ctx.note('empty_array_reader_refused')        # refusing an empty recording is not a violation
+            continue
+        rd = r.value
+        cb = [int(x) for x in np.asarray(rd.chunk_bounds).tolist()]
+        if cb[:1] != [0] or cb[-1] != 0 or any(y <= x for x, y in zip(cb, cb[1:])):
+            ctx.violation('bad_reader_chunk_bounds', case, 'recording without samples: chunk_bounds %s (not strictly increasing from 0 to 0)' % cb)
+        ri = call(lambda: [(int(a), int(b)) for a, b in rd.iter_chunks()])
+        if ri.ok and _tiles(ri.value, 0):
+            ctx.violation('iter_chunks_not_tiling', case, 'recording without samples: %s' % ri.value)
 
 
 def _case_cbin_reader(case, ctx):
